@@ -71,6 +71,7 @@ ATTRS = ["disable", "fixable", "indent_size", "phase", "severity", "case", "zzz_
 class K12a(Harness):
     name = "K12a"
     prop = "C12"
+    props = ("C12", "C03")
     title = "the effective value of a rule attribute is the value at the most specific configuration level that mentions it (file_rules > file_list > rule > group > global > default)"
     functions = ("vsg.rule", "vsg.rule_list", "vsg.apply_rules", "vsg.severity", "vsg.config", "vsg.utils")
     stubs = ("rule_list constructor bypassed (two hand-made rules instead of the ~1000 shipped ones)", "configuration dictionaries are built directly (no YAML/JSON text)")
@@ -79,10 +80,12 @@ class K12a(Harness):
     exception_props = ("C12", "C19")
 
     def params(self, tier):
-        return [{"attr": a} for a in ATTRS] + [{"attr": a, "kind": "localized"} for a in ("disable", "severity", "indent_size")]
+        return ([{"attr": a} for a in ATTRS] + [{"attr": a, "kind": "localized"} for a in ("disable", "severity", "indent_size")]
+                + [{"attr": "disable", "fname": f} for f in ("./design.vhd", "./rtl/design.vhd", "rtl//design.vhd", "../x/design.vhd", "design.vhd")])
 
     def run(self, eng, p):
         attr = p["attr"]
+        FNAME = p.get("fname", "src/design.vhd")
         member = eng.bool("in_group")
         same_file = eng.bool("file_matches")
         if p.get("kind") == "localized":
